@@ -13,7 +13,7 @@
    src/ast/operators.go on every run). *)
 From Coq Require Import List Bool.
 Import ListNotations.
-From DDP Require Import Gen.Operators.
+From DDP Require Import Gen.OperatorEnum.
 
 Inductive base : Set :=
 | BZahl | BKomma | BByte | BBool | BChar | BText   (* ZAHL KOMMAZAHL BYTE WAHRHEITSWERT BUCHSTABE TEXT *)
